@@ -209,7 +209,8 @@ pub fn edge_len(n: usize, d: usize) -> usize {
 }
 
 /// Brute-force neighbourhood with integer arithmetic. Returns (surely inside, don't-care) index
-/// sets: points whose exact distance is within 1e-5 relative of the radius are don't-cares.
+/// sets: points whose (irrational) distance is within 1e-6 relative of the radius are don't-cares;
+/// integer distances are compared exactly.
 pub fn neighbours_ref(ntotal: usize, ndim: usize, index: usize, radius: f32) -> (Vec<i32>, Vec<i32>) {
     let e = edge_len(ntotal, ndim);
     let coords = |mut i: usize| -> Vec<i64> {
@@ -228,9 +229,15 @@ pub fn neighbours_ref(ntotal: usize, ndim: usize, index: usize, radius: f32) -> 
         let c = coords(i);
         let d2: i64 = c.iter().zip(c0.iter()).map(|(a, b)| (a - b) * (a - b)).sum();
         let d = (d2 as f64).sqrt();
-        let tol = 1e-5 * d.max(1.0);
-        if (d - r).abs() <= tol {
+        // a distance that is an integer is computed exactly in f32: no tolerance there;
+        // otherwise sqrt is rounded and a radius within a few ulps of it is a don't-care
+        let root = d.round() as i64;
+        let exact = root * root == d2;
+        let tol = if exact { 0.0 } else { 1e-6 * d.max(1.0) };
+        if !exact && (d - r).abs() <= tol {
             dc.push(i as i32);
+        } else if exact && d == r {
+            sure.push(i as i32);
         } else if d < r {
             sure.push(i as i32);
         }
@@ -467,9 +474,10 @@ pub fn check_fired(name: &str, pre: &Snap, post: &Snap) -> RefResult {
             mism(&e, post)
         }
         "BOOLEAN.RAND" => {
-            if post.b.len() == pre.b.len() + 1 {
-                e.b.insert(0, post.b[0]);
+            if post.b.len() != pre.b.len() + 1 {
+                return bad("BOOLEAN.RAND pushed no boolean".into());
             }
+            e.b.insert(0, post.b[0]);
             mism(&e, post)
         }
         // ---- INTEGER -----------------------------------------------------------------------
@@ -484,9 +492,10 @@ pub fn check_fired(name: &str, pre: &Snap, post: &Snap) -> RefResult {
             };
             if exact < i32::MIN as i64 || exact > i32::MAX as i64 {
                 // unrepresentable: any in-type value, shapes as documented
-                if post.i.len() == e.i.len() + 1 {
-                    e.i.insert(0, post.i[0]);
+                if post.i.len() != e.i.len() + 1 {
+                    return Err(("overflow-shape".into(), format!("unrepresentable result must still leave ONE integer: {}", e.diff_text(post))));
                 }
+                e.i.insert(0, post.i[0]);
                 return match mism(&e, post) {
                     Ok(()) => Ok(()),
                     Err((_, t)) => Err(("overflow-shape".into(), t)),
@@ -515,9 +524,10 @@ pub fn check_fired(name: &str, pre: &Snap, post: &Snap) -> RefResult {
         "INTEGER.ABS" => {
             let a = e.i.remove(0);
             if a == i32::MIN {
-                if post.i.len() == e.i.len() + 1 {
-                    e.i.insert(0, post.i[0]);
+                if post.i.len() != e.i.len() + 1 {
+                    return bad(format!("ABS of MIN must still leave one integer: {}", e.diff_text(post)));
                 }
+                e.i.insert(0, post.i[0]);
                 return mism(&e, post);
             }
             e.i.insert(0, a.abs());
@@ -537,16 +547,20 @@ pub fn check_fired(name: &str, pre: &Snap, post: &Snap) -> RefResult {
             let a = fl(e.f.remove(0));
             let t = a.trunc();
             if a.is_nan() || t < -2147483648.0 || t >= 2147483648.0 {
-                if post.i.len() == e.i.len() + 1 {
-                    e.i.insert(0, post.i[0]);
+                if post.i.len() != e.i.len() + 1 {
+                    return bad(format!("out-of-range conversion must still leave one integer: {}", e.diff_text(post)));
                 }
+                e.i.insert(0, post.i[0]);
             } else {
                 e.i.insert(0, t as i32);
             }
             mism(&e, post)
         }
         "INTEGER.RAND" => {
-            if post.i.len() == pre.i.len() + 1 {
+            if post.i.len() != pre.i.len() + 1 {
+                return bad("INTEGER.RAND with min < max pushed no integer".into());
+            }
+            {
                 let v = post.i[0];
                 if v < pre.cfg.min_random_integer || v >= pre.cfg.max_random_integer {
                     return bad(format!("INTEGER.RAND produced {} outside [{}, {})", v, pre.cfg.min_random_integer, pre.cfg.max_random_integer));
@@ -634,7 +648,10 @@ pub fn check_fired(name: &str, pre: &Snap, post: &Snap) -> RefResult {
             mism(&e, post)
         }
         "FLOAT.RAND" => {
-            if post.f.len() == pre.f.len() + 1 {
+            if post.f.len() != pre.f.len() + 1 {
+                return bad("FLOAT.RAND with finite min < max pushed no float".into());
+            }
+            {
                 let v = fl(post.f[0]);
                 let (lo, hi) = (fl(pre.cfg.min_random_float), fl(pre.cfg.max_random_float));
                 if !(v >= lo && v < hi) {
@@ -1229,9 +1246,10 @@ pub fn check_fired(name: &str, pre: &Snap, post: &Snap) -> RefResult {
                 }
             }
             if partial_overflow || s < i32::MIN as i64 || s > i32::MAX as i64 {
-                if post.i.len() == e.i.len() + 1 {
-                    e.i.insert(0, post.i[0]);
+                if post.i.len() != e.i.len() + 1 {
+                    return Err(("overflow-shape".into(), format!("unrepresentable sum must still leave one integer: {}", e.diff_text(post))));
                 }
+                e.i.insert(0, post.i[0]);
                 return match mism(&e, post) {
                     Ok(()) => Ok(()),
                     Err((_, t)) => Err(("overflow-shape".into(), t)),
